@@ -2,6 +2,9 @@ package c01
 
 import (
 	"bytes"
+	"crypto"
+	_ "crypto/sha256"
+	_ "crypto/sha512"
 	"crypto/ecdsa"
 	"crypto/ed25519"
 	"crypto/elliptic"
@@ -331,6 +334,29 @@ func (s CertSpec) TBS(innerAlg []byte) []byte {
 
 func ecdsaSigDER(r, s *big.Int) []byte { return der.Seq(der.Int(r), der.Int(s)) }
 
+// signDet signs like pki.SignStd (standard library only, default algorithm of
+// the key) but deterministically also for ECDSA (RFC 6979 via a nil random
+// source), so that generated cases are a function of the rapid draws alone.
+func signDet(k *keys.Key, msg []byte) []byte {
+	if k.Kind != "ec" {
+		return pki.SignStd(k, msg)
+	}
+	h := crypto.SHA256
+	switch k.Curve {
+	case "P-384":
+		h = crypto.SHA384
+	case "P-521":
+		h = crypto.SHA512
+	}
+	hh := h.New()
+	hh.Write(msg)
+	sig, err := k.StdPriv.(*ecdsa.PrivateKey).Sign(nil, hh.Sum(nil), h)
+	if err != nil {
+		return pki.SignStd(k, msg)
+	}
+	return sig
+}
+
 // Build returns the certificate DER.
 func (s CertSpec) Build() []byte {
 	signer := keys.Get(s.Signer)
@@ -348,7 +374,7 @@ func (s CertSpec) Build() []byte {
 	var sig []byte
 	switch s.SigMode {
 	case 0:
-		sig = pki.SignStd(signer, tbs)
+		sig = signDet(signer, tbs)
 	default:
 		sig = s.hostileSig()
 	}
@@ -491,7 +517,7 @@ func BuildOCSP(s OCSPSpec, cert []byte) []byte {
 	if signer.Kind == "dsa" {
 		signer = keys.Of("rsa")[1]
 	}
-	sig := pki.SignStd(signer, tbs)
+	sig := signDet(signer, tbs)
 	if s.BadSig {
 		sig = fill(len(sig), 0)
 	}
